@@ -93,25 +93,24 @@ class Tok(object):
 
 def lex(text):
     out, i, n = [], 0, len(text)
+    match = _TOKEN.match
     while i < n:
-        m = _TOKEN.match(text, i)
+        m = match(text, i)
         if not m:
             raise ParseError('cannot lex at %d: %r' % (i, text[i:i + 20]))
-        kind = m.lastgroup if m.lastgroup != 'phname' else 'ph'
-        if m.group('ph') is not None:
-            out.append(Tok('ph', m.group('phname'), i, m.end()))
-        elif m.group('ws') is None:
-            for k in ('qid', 'str', 'num', 'id', 'op'):
-                if m.group(k) is not None:
-                    kind = k
-                    break
-            t = m.group(kind)
-            if kind == 'qid':
-                t = t[1:-1].replace('""', '"')
-            elif kind == 'str':
-                t = t[1:-1].replace("''", "'")
-            out.append(Tok(kind, t, i, m.end()))
-        i = m.end()
+        kind = m.lastgroup          # the outermost alternative that matched ('ph' closes after 'phname')
+        end = m.end()
+        if kind != 'ws':
+            if kind == 'ph':
+                t = m.group('phname')
+            else:
+                t = m.group(kind)
+                if kind == 'qid':
+                    t = t[1:-1].replace('""', '"')
+                elif kind == 'str':
+                    t = t[1:-1].replace("''", "'")
+            out.append(Tok(kind, t, i, end))
+        i = end
     out.append(Tok('eof', '', n, n))
     return out
 
@@ -612,9 +611,13 @@ def parse(text):
     return st
 
 
+_MARKER = re.compile(r'%\(([^)]*)\)s')
+
+
 def all_placeholders(text):
-    """Every `%(name)s` marker occurring in the text, in order (lexical, not via the grammar)."""
-    return [t.text for t in lex(text) if t.kind == 'ph']
+    """Every `%(name)s` marker occurring in the text, in order (purely lexical, not via the
+    grammar; cqlengine never puts values into the text, so a marker cannot hide in a literal)."""
+    return _MARKER.findall(text)
 
 
 # ------------------------------------------------------------------------------------ schema
@@ -1097,38 +1100,38 @@ class Database(object):
         # disjoint cells, deletions (tombstones) win over additions of the same element.
         writes = {}        # (tk, pk, scope-key, column) -> new value
         rowops = []
-        for st, tk, t, keys, muts, row_op in plans:
+        grouped = {}       # cell -> [(fn, tag, statement index)]
+        info = {}
+        for si, (st, tk, t, keys, muts, row_op) in enumerate(plans):
             for pk, ck in keys:
                 if row_op:
                     rowops.append((tk, t, pk, ck, row_op))
-                grouped = {}
                 for scope, c, fn, tag in muts:
                     where = (tk, pk, None if scope == 'static' else (ck if t.ck else ()), c)
                     if scope == 'row' and where[2] is None:
                         raise InvalidRequest('regular column %s written without clustering key' % c)
-                    grouped.setdefault(where, []).append((fn, tag))
-                for where, ops in grouped.items():
-                    c = where[3]
-                    if where in writes:
-                        if batch:
-                            raise Unsupported('two statements of one batch write the same cell %r (S8)' % (where,))
-                        raise HarnessBug('same cell planned twice')
-                    if len(ops) > 1:
-                        tags = [tag for _, tag in ops]
-                        if any(tag[0] == 'set' for tag in tags):
-                            raise InvalidRequest('Multiple incompatible setting of column %s' % c)
-                        if len(set(tags)) != len(tags):
-                            raise Unsupported('the same operation/element of column %s twice in one statement' % c)
-                        if t.kinds[c] == 'list' and any(tag[0] in ('minus', 'delelem', 'elem') for tag in tags):
-                            raise Unsupported('list removal/index operation combined with another operation on %s' % c)
-                        if t.kinds[c] == 'counter':
-                            raise InvalidRequest('Multiple incompatible setting of column %s' % c)
-                        ops = [o for o in ops if o[1][0] not in ('minus', 'delelem')] + \
-                              [o for o in ops if o[1][0] in ('minus', 'delelem')]
-                    cur = self._current(tk, t, pk, ck, c)
-                    for fn, _tag in ops:
-                        cur = fn(cur)
-                    writes[where] = cur
+                    grouped.setdefault(where, []).append((fn, tag, si))
+                    info[where] = (tk, t, pk, ck)
+        for where, ops in grouped.items():
+            c = where[3]
+            tk, t, pk, ck = info[where]
+            if len(ops) > 1:
+                tags = [tag for _, tag, _ in ops]
+                same_stmt = len(set(si for _, _, si in ops)) == 1
+                if any(tag[0] == 'set' for tag in tags) or t.kinds[c] in ('counter', 'scalar'):
+                    if same_stmt:
+                        raise InvalidRequest('Multiple incompatible setting of column %s' % c)
+                    raise Unsupported('two statements of one batch write the same cell %r (S8)' % (where,))
+                if len(set(tags)) != len(tags):
+                    raise Unsupported('the same operation/element of column %s twice at one timestamp' % c)
+                if t.kinds[c] == 'list' and any(tag[0] in ('minus', 'delelem', 'elem') for tag in tags):
+                    raise Unsupported('list removal/index operation combined with another operation on %s' % c)
+                ops = [o for o in ops if o[1][0] not in ('minus', 'delelem')] + \
+                      [o for o in ops if o[1][0] in ('minus', 'delelem')]
+            cur = self._current(tk, t, pk, ck, c)
+            for fn, _tag, _si in ops:
+                cur = fn(cur)
+            writes[where] = cur
         if batch:
             for tk, t, pk, ck, op in rowops:
                 if op != 'marker':
@@ -1282,6 +1285,95 @@ class Database(object):
         return rows
 
 
+# ------------------------------------------------------------------------------------ key / value encoding
+# Cassandra's binary form of scalar CQL values (native protocol "[value]" bodies, which are also
+# what the partitioner hashes) written from the protocol specification, section "Data types".
+import datetime as _dt
+import decimal as _decimal
+import ipaddress as _ip
+import struct as _struct
+import uuid as _uuid
+
+_EPOCH_DATE = _dt.date(1970, 1, 1)
+_EPOCH_NAIVE = _dt.datetime(1970, 1, 1)
+_EPOCH_UTC = _dt.datetime(1970, 1, 1, tzinfo=_dt.timezone.utc)
+
+
+def varint_bytes(n):
+    """Two's complement, big endian, minimal length (java BigInteger.toByteArray)."""
+    length = 1
+    while not -(1 << (8 * length - 1)) <= n < (1 << (8 * length - 1)):
+        length += 1
+    return (n & ((1 << (8 * length)) - 1)).to_bytes(length, 'big')
+
+
+def millis_of(v):
+    """Exact millisecond instant of a datetime (naive = UTC) or date, floor of sub-millisecond."""
+    if isinstance(v, _dt.datetime):
+        td = (v - _EPOCH_UTC) if v.tzinfo is not None and v.utcoffset() is not None else (v - _EPOCH_NAIVE)
+    elif isinstance(v, _dt.date):
+        td = _dt.datetime(v.year, v.month, v.day) - _EPOCH_NAIVE
+    else:
+        raise TypeError('not a date/datetime: %r' % (v,))
+    micros = (td.days * 86400 + td.seconds) * 1000000 + td.microseconds
+    return micros // 1000
+
+
+def encode_value(typ, v):
+    """Binary form of python value `v` as CQL type `typ` (lower-case CQL name)."""
+    if typ in ('text', 'varchar'):
+        return v.encode('utf-8')
+    if typ == 'ascii':
+        return v.encode('ascii')
+    if typ == 'blob':
+        return bytes(v)
+    if typ == 'boolean':
+        return b'\x01' if v else b'\x00'
+    if typ == 'tinyint':
+        return _struct.pack('>b', v)
+    if typ == 'smallint':
+        return _struct.pack('>h', v)
+    if typ == 'int':
+        return _struct.pack('>i', v)
+    if typ in ('bigint', 'counter'):
+        return _struct.pack('>q', v)
+    if typ == 'varint':
+        return varint_bytes(v)
+    if typ == 'float':
+        return _struct.pack('>f', v)
+    if typ == 'double':
+        return _struct.pack('>d', v)
+    if typ == 'decimal':
+        sign, digits, exp = _decimal.Decimal(v).as_tuple()
+        unscaled = int(''.join(map(str, digits)) or '0')
+        if sign:
+            unscaled = -unscaled
+        return _struct.pack('>i', -exp) + varint_bytes(unscaled)
+    if typ in ('uuid', 'timeuuid'):
+        return (v if isinstance(v, _uuid.UUID) else _uuid.UUID(v)).bytes
+    if typ == 'inet':
+        return _ip.ip_address(v).packed
+    if typ == 'timestamp':
+        return _struct.pack('>q', millis_of(v))
+    if typ == 'date':
+        days = v if isinstance(v, int) else (v - _EPOCH_DATE).days
+        return _struct.pack('>I', days + (1 << 31))
+    if typ == 'time':
+        if isinstance(v, _dt.time):
+            v = ((v.hour * 60 + v.minute) * 60 + v.second) * 1000000000 + v.microsecond * 1000
+        return _struct.pack('>q', v)
+    raise Unsupported('type %s' % typ)
+
+
+def routing_key(types, values):
+    """Partition key as Cassandra hashes it: the single component's bytes, or for a composite
+    key each component as <2-byte big-endian length><bytes><0x00>."""
+    parts = [encode_value(t, v) for t, v in zip(types, values)]
+    if len(parts) == 1:
+        return parts[0]
+    return b''.join(_struct.pack('>H', len(p)) + p + b'\x00' for p in parts)
+
+
 # ------------------------------------------------------------------------------------ selftest
 def selftest():
     """Fixed scenarios with outcomes documented for Cassandra (CQL reference: upserts, statics,
@@ -1377,6 +1469,29 @@ def selftest():
         raise AssertionError('same-cell batch conflict not reported')
     except Unsupported:
         pass
+    # value / key encoding vectors (protocol spec examples and vectors also present in
+    # /repo/tests/unit/test_marshalling.py and test_types.py)
+    assert encode_value('int', 1) == b'\x00\x00\x00\x01' and encode_value('int', -1) == b'\xff\xff\xff\xff'
+    assert encode_value('bigint', 1 << 40) == b'\x00\x00\x01\x00\x00\x00\x00\x00'
+    assert varint_bytes(0) == b'\x00' and varint_bytes(127) == b'\x7f' and varint_bytes(128) == b'\x00\x80'
+    assert varint_bytes(-1) == b'\xff' and varint_bytes(-128) == b'\x80' and varint_bytes(-129) == b'\xff\x7f'
+    assert encode_value('varint', 9223372036854775808) == b'\x00\x80\x00\x00\x00\x00\x00\x00\x00'
+    assert encode_value('decimal', _decimal.Decimal('1.23')) == b'\x00\x00\x00\x02\x7b'
+    assert encode_value('timestamp', _dt.datetime(2011, 11, 7, 18, 55, 49, 881000)) == b'\x00\x00\x013\x7fb\xeey'
+    assert encode_value('timestamp', _dt.datetime(2015, 11, 2)) == b'\x00\x00\x01P\xc5~L\x00'
+    assert encode_value('decimal', _decimal.Decimal('1243878957943.1234124191998')) == b'\x00\x00\x00\r\nJ\x04"^\x91\x04\x8a\xb1\x18\xfe'
+    assert encode_value('decimal', _decimal.Decimal('-112233.441191')) == b'\x00\x00\x00\x06\xe5\xde]\x98Y'
+    assert encode_value('decimal', _decimal.Decimal('-0.00000000000000064206')) == b'\x00\x00\x00\x14\xff\x052'
+    assert encode_value('decimal', _decimal.Decimal('64206e100')) == b'\xff\xff\xff\x9c\x00\xfa\xce'
+    assert encode_value('timestamp', _dt.datetime(1969, 12, 31, 23, 59, 59, 999000)) == b'\xff' * 8
+    assert encode_value('timestamp', _dt.datetime(1970, 1, 1, 1, tzinfo=_dt.timezone(_dt.timedelta(hours=1)))) == b'\x00' * 8
+    assert encode_value('date', _dt.date(1970, 1, 1)) == b'\x80\x00\x00\x00' and encode_value('date', _dt.date(1969, 12, 31)) == b'\x7f\xff\xff\xff'
+    assert encode_value('time', _dt.time(0, 0, 1, 1)) == _struct.pack('>q', 1000001000)
+    assert encode_value('boolean', True) == b'\x01' and encode_value('text', 'h\xe9') == b'h\xc3\xa9'
+    assert encode_value('inet', '127.0.0.1') == b'\x7f\x00\x00\x01' and len(encode_value('inet', '::1')) == 16
+    assert encode_value('double', 1.0) == b'\x3f\xf0' + b'\x00' * 6 and encode_value('float', -2.0) == b'\xc0\x00\x00\x00'
+    assert routing_key(['int'], [1]) == b'\x00\x00\x00\x01'
+    assert routing_key(['int', 'text'], [1, 'ab']) == b'\x00\x04\x00\x00\x00\x01\x00' + b'\x00\x02ab\x00'
     return True
 
 
